@@ -221,6 +221,34 @@ def run(shard, rec):
         recs = [[secint(1), secint(10)], [secint(2), secint(20)], [secint(3), secint(30)]]
         R.shuffle(secint, recs)
         res.append(('shuffle_records', [await o(r) for r in recs]))
+        # sequence arguments belong to the caller, who goes on using them: the draw is from the sequence as passed
+        def spoil(l):
+            l[:] = [secint(1000 + i) if isinstance(a, secint) else 1000 + i for i, a in enumerate(l)][::-1]
+        a1 = [3, 1, 4, 1, 5]
+        r = R.choice(secint, a1); spoil(a1)
+        res.append(('choice', await o(r)))
+        a2 = [secint(3), secint(1), secint(4)]
+        r = R.choice(secint, a2); spoil(a2)
+        res.append(('choice', await o(r)))
+        a3, w3 = [3, 1, 4], [5, 0, 1]
+        r = R.choices(secint, a3, weights=w3, k=4); spoil(a3); w3[:] = [0, 1, 0]
+        res.append(('choices_w', await o(r)))
+        a4 = [3, 1, 4, 1, 5, 9]
+        r = R.sample(secint, a4, 3); spoil(a4)
+        res.append(('sample_list', await o(r)))
+        a5 = [secint(v) for v in (3, 1, 4, 1, 5, 9)]
+        r = R.sample(secint, a5, 3); spoil(a5)
+        res.append(('sample_list', await o(r)))
+        a6 = [secint(2), secint(2), secint(3)]
+        r = R.random_permutation(secint, a6); spoil(a6)
+        res.append(('perm_list', await o(r)))
+        a7 = [secint(v) for v in range(5)]
+        r = R.random_derangement(secint, a7); spoil(a7)
+        res.append(('derangement5', await o(r)))
+        a8 = list(range(5))
+        r = R.random_derangement(secint, a8); spoil(a8)
+        res.append(('derangement5', await o(r)))
+        res.append(('caller_lists_reused', 8))
         return res
     for rep in range(shard['reps']):
         case = [shard['name'], rep]
@@ -234,6 +262,9 @@ def run(shard, rec):
         if any(r != res[0] for r in res):
             rec.violation(f'{shard["name"]}: parties opened different random values', {'mechanism': 'parties-disagree'}, {'case': case}, case=case)
         for name, v in res[0]:
+            if name == 'caller_lists_reused':
+                rec.count('caller_lists_reused', v)
+                continue
             rec.count('range_shape_draws')
             ok = {
                 'randrange(5)': lambda: v in range(5), 'randrange(-7,20,3)': lambda: v in range(-7, 20, 3), 'randrange(10,0,-2)': lambda: v in range(10, 0, -2),
